@@ -62,34 +62,43 @@ fn serialize_range_mappings(sm: &SourceMap) -> Option<String> {
     let mut had_rmi = false;
     let mut empty = true;
 
-    let mut idx_of_first_in_line = 0;
+    // index of the next segment `serialize_mappings` emits on the current line
+    let mut segment_in_line = 0;
 
     let mut rmi_data = Vec::<u8>::new();
 
     for (idx, token) in sm.tokens().enumerate() {
+        if token.get_dst_line() != prev_line {
+            while token.get_dst_line() != prev_line {
+                if had_rmi {
+                    encode_rmi(&mut buf, &rmi_data);
+                    rmi_data.clear();
+                }
+
+                buf.push(b';');
+                prev_line += 1;
+                had_rmi = false;
+            }
+            segment_in_line = 0;
+        } else if idx > 0 && Some(&token) == sm.get_token(idx - 1).as_ref() {
+            // `serialize_mappings` does not emit a segment for an exact duplicate
+            continue;
+        }
+
         if token.is_range() {
             had_rmi = true;
             empty = false;
 
-            let num = idx - idx_of_first_in_line;
+            let num = segment_in_line;
 
-            rmi_data.resize(rmi_data.len() + 2, 0);
+            if rmi_data.len() <= num / 8 {
+                rmi_data.resize(num / 8 + 1, 0);
+            }
 
             let rmi_bits = rmi_data.view_bits_mut::<Lsb0>();
             rmi_bits.set(num, true);
         }
-
-        while token.get_dst_line() != prev_line {
-            if had_rmi {
-                encode_rmi(&mut buf, &rmi_data);
-                rmi_data.clear();
-            }
-
-            buf.push(b';');
-            prev_line += 1;
-            had_rmi = false;
-            idx_of_first_in_line = idx;
-        }
+        segment_in_line += 1;
     }
     if empty {
         return None;
